@@ -40,7 +40,7 @@ for pid in props:
 hooks_commits = [l.strip() for l in open("/verif/hooks_commits.txt")] if __import__("os").path.exists("/verif/hooks_commits.txt") else []
 m = {
  "version": 1,
- "setup_cmd": "cd /verif && export GOFLAGS=-mod=mod GOPROXY=off GOSUMDB=off GOTOOLCHAIN=local CGO_ENABLED=1 && mkdir -p bin evidence replays && cp /repo/go.sum harness/go.sum && cd harness && go build -tags verif -o ../bin/vcheck ./cmd/vcheck",
+ "setup_cmd": "cd /verif && export GOFLAGS=-mod=mod GOPROXY=off GOSUMDB=off GOTOOLCHAIN=local CGO_ENABLED=1 && mkdir -p bin evidence replays && ./check selftest quick",
  "hooks": {
   "guard": "verif",
   "enable": "go build -tags verif (done by ./check on every run, against /repo's working tree)",
